@@ -5,10 +5,10 @@ from props._cfg_common import TRUSTED, ASSUMPTIONS, TECHNIQUE
 
 PROP = "C12"
 LEVEL = "proof"
-THEOREMS = {"Properties.C12": ["C12_generating", "C12_nullable", "C12_reachable", "C12_is_empty", "C12_get_words", "C12_graph_acyclic", "C12_is_finite", "C12_normal_form_useful", "C12_is_finite_correct", "C12_get_words_stop_rule"]}
+THEOREMS = {"Properties.C12": ["C12_generating", "C12_nullable", "C12_reachable", "C12_is_empty", "C12_get_words", "C12_graph_acyclic", "C12_is_finite", "C12_normal_form_useful", "C12_is_finite_correct", "C12_get_words_stop_rule", "C12_get_words_code"]}
 LEVEL_TEXT = ("Coq theorems (no axioms, all grammars): generating, nullable and reachable symbols are exactly the symbols deriving a terminal word / the empty word / "
               "occurring in a sentential form from the start symbol (least fixed points; the counter worklists of the code are modelled, not mirrored: the sets are unique); "
-              "is_empty is exactly 'no word generated'; get_words(n) is modelled by its specification (each word of length <= n once) and proved. is_finite mirrors the "
+              "is_empty is exactly 'no word generated'; get_words(n) is modelled by its specification (each word of length <= n once) and proved, and also mirrored end to end (nullable check + length-indexed table on the normal form, C12_get_words_code; stop rule of the unbounded mode C12_get_words_stop_rule). is_finite mirrors the "
               "code (cycle test on the variable graph of the normal form) and is proved to decide finiteness of the language (acyclic: derivation trees are "
               "shallow, words are short; cyclic: a cycle through generating, reachable variables pumps) for every registered grammar with a start symbol: "
               "the normal form is proved to have only generating and reachable variables (the boolean form of that fact is also evaluated on every case). The unbounded mode of get_words is exercised under an alarm only.")
